@@ -143,6 +143,12 @@ def save {ρ τ : Type} (r : Registry α ρ) (t : τ) : File α ρ τ :=
     datasets := (if r.eulDefined then r.eul.flatMap (saveEul r.dim) else []) ++ r.lag.flatMap saveLagGrid,
     params := if r.eulDefined then some r.params else none }
 
+/-- `EulerianFieldIO.__init__`: the grid parameters it derives from a position field whose components are ordered
+x, y(, z) and whose lower corner (cell centre of the first cell) is `cornerXYZ`: origin in z-y-x (array-axis) order,
+one spacing for every axis (taken from the x coordinates), the grid size = the array shape. -/
+def eulerianFieldIOParams {ρ : Type} (cornerXYZ : List ρ) (dx : ρ) (gridShape : List ρ) : EulParams ρ :=
+  { origin := cornerXYZ.reverse, dx := cornerXYZ.map fun _ => dx, gridSize := gridShape }
+
 /-! ### load -/
 
 inductive LoadError
